@@ -336,8 +336,19 @@ def build(ctx, consts):
 
     # ---- hand models instantiated with the regenerated thresholds (defined at the end of the generated file)
     defs = []
+
+    def av_sampler(rng):
+        th = 10 ** float(rng.uniform(-6, 0.49)) if rng.random() < 0.5 else PI - 10 ** float(rng.uniform(-6, 0))
+        return [np.array(rot_from_axis_angle(rand_unit(rng), min(th, PI - 1e-6)), float)]
+
+    def av_num(R):
+        t, v = base.tr2angvec(R)
+        return np.r_[t, v]
+    defs.append("Definition m_tr2angvec_general {T} (O : ops T) (R : M33 T) := angvec_general O R.\n")
+    g.model('m_tr2angvec_general', [('R', 'M33')], 'V4', coq='m_tr2angvec_general', module='Model.C05_Angvec', num_fn=av_num,
+            sampler=av_sampler, tol=1e-9)
     if consts is None:          # the skeleton no longer matches: no model instance, Props/C05_b.v is reported as not shown
-        return g, ""
+        return g, "".join(defs)
 
     def model(name, body, inputs, out, num_fn, sampler):
         binders = " ".join(f"({an} : {'T' if sh == 'S' else sh + ' T'})" for an, sh in inputs)
@@ -381,7 +392,7 @@ def build(ctx, consts):
 def gen_text(g, defs, consts):
     txt = g.coq_text()
     txt = txt.replace("From SM Require Import Base.Ops.\n",
-                      "From SM Require Import Base.Ops Base.Lin Model.C05_Angles.\nFrom SMgen Require Import Consts_C05.\n", 1)
+                      "From SM Require Import Base.Ops Base.Lin Model.C05_Angles Model.C05_Angvec.\nFrom SMgen Require Import Consts_C05.\n", 1)
     txt += "\n(* hand models of theories/Model/C05_Angles.v instantiated with the thresholds regenerated from the source *)\n" + defs
     return txt
 
@@ -447,16 +458,6 @@ def oracle_rpy(ctx):
                     try:
                         a = np.asarray(f(R, od, 'rad'), float)
                         d = np.asarray(f(R, od, 'deg'), float)
-                    except ValueError as ex:
-                        i, j = SING_ENTRY[order]
-                        if 'math domain error' in str(ex) and abs(R[i, j]) > 1 and abs(abs(R[i, j]) - 1) < 10 * EPS:
-                            # repaired by /repo dd68bbe (asin argument clipped); reported again if it comes back
-                            ctx.fail('oracle:rpy:singular:asin-domain-error',
-                                     f"tr2rpy (via {site}) raises ValueError(math domain error): |R[{i},{j}]| = 1 + {abs(R[i, j]) - 1:g} "
-                                     f"is inside the 10*eps singular band and math.asin is applied unclipped", rep)
-                        else:
-                            ctx.fail(f'oracle:rpy:{site}:raises:ValueError', f"tr2rpy via {site} raises {ex}", rep)
-                        continue
                     except Exception as ex:
                         ctx.fail(f'oracle:rpy:{site}:raises:{type(ex).__name__}', f"tr2rpy via {site} raises {type(ex).__name__}: {ex}", rep)
                         continue
@@ -525,8 +526,8 @@ def oracle_angvec(ctx):
     rng = ctx.rng
     nr = ctx.n(1000, 20000)
     reps = ctx.n(4, 10)
-    offs = OFFSETS + [s * 10.0 ** -k for k in (13, 14, 15) for s in (1, -1)] + [3e-8, 5e-8, 2e-7, 3e-4]
-    grid = [(s + o, (s, o)) for s in (0.0, PI) for o in offs] + [(float(rng.uniform(-PI, PI)), (None, None)) for _ in range(nr)]
+    offs = OFFSETS + [s * 10.0 ** -k for k in (13, 14, 15, 16) for s in (1, -1)] + [3e-8, 5e-8, 2e-7, 3e-4, 3e-6, 3e-5, 1.5e-7, 3e-15, 5e-15, 2.1e-14, 2.3e-14]
+    grid = [(s + o, (s, o)) for s in (0.0, PI) for o in offs] + [(10 ** float(rng.uniform(-12, 0.497)), (None, None)) for _ in range(ctx.n(300, 5000))] + [(PI - 10 ** float(rng.uniform(-16, -1)), (None, None)) for _ in range(ctx.n(300, 5000))] + [(float(rng.uniform(-PI, PI)), (None, None)) for _ in range(nr)]
     for th, (s, o) in grid:
         for _ in range(reps):
             v = rand_unit(rng) if rng.random() < 0.8 else np.eye(3)[rng.integers(3)] * rng.choice([-1.0, 1.0])
@@ -560,9 +561,10 @@ def oracle_angvec(ctx):
                     continue
                 rep['out'] = [None if not np.isfinite(t) else float(t), None if ax is None else np.asarray(ax, float).tolist()]
                 if not ok_val:
-                    if th_true < 1e-7:
-                        ctx.fail('oracle:angvec:small-angle:undefined',
-                                 f"tr2angvec returns (theta={t}, axis={ax}) for a rotation by {th_true:g} rad: trlog divides by sin(acos(1-)) = 0", rep)
+                    if ax is None and np.isfinite(t) and 9 * EPS < th_true < 101 * EPS:
+                        ctx.fail('oracle:angvec:axis-none:angle-between-10eps-and-100eps',
+                                 f"tr2angvec returns (theta={t!r}, axis=None) for a rotation by {th_true:g} rad: iszerovec (10 eps) says the log is "
+                                 f"non-zero but unitvec (100 eps) refuses to normalise it", rep)
                     else:
                         ctx.fail(f'oracle:angvec:{site}:undefined', f"tr2angvec returns (theta={t}, axis={ax})", rep)
                     continue
@@ -570,20 +572,14 @@ def oracle_angvec(ctx):
                 err = float(np.max(np.abs(Rb - Rin)))
                 if th_true > 1e-3 and PI - th_true > 1e-3:
                     ctx.stats['worst:angvec:rebuild:generic'] = max(ctx.stats.get('worst:angvec:rebuild:generic', 0.0), err)
+                ctx.stats['worst:angvec:rebuild'] = max(ctx.stats.get('worst:angvec:rebuild', 0.0), err)
                 if not err <= 1e-6:
-                    if 1e-7 < PI - th_true < 2e-4:
-                        ctx.fail('oracle:angvec:near-pi:inaccurate',
-                                 f"angvec2r(tr2angvec(R)) differs from R by {err:g} for rotation angle pi - {PI - th_true:g}: "
-                                 f"trlog's general branch (R - R')/2/sin(theta) loses the axis near pi", rep)
-                    else:
-                        ctx.fail(f'oracle:angvec:{site}:rebuild', f"angvec2r(tr2angvec(R)) differs from R by {err:g} (rotation angle {th_true:g})", rep)
-                if not (0 <= t <= PI + 1e-12):
-                    if t > PI and 1e-7 < PI - th_true < 2e-4:
-                        ctx.fail('oracle:angvec:near-pi:angle-exceeds-pi',
-                                 f"tr2angvec returns the angle {t!r} > pi for a rotation by pi - {PI - th_true:g} (same loss of accuracy of "
-                                 f"trlog's general branch near pi: |vex(log R)| overshoots)", rep)
-                    else:
-                        ctx.fail(f'oracle:angvec:{site}:range', f"rotation angle {t} outside [0, pi]", rep)
+                    ctx.fail(f'oracle:angvec:{site}:rebuild', f"angvec2r(tr2angvec(R)) differs from R by {err:g} (rotation angle {th_true:g})", rep)
+                ctx.stats['worst:angvec:angle-over-pi'] = max(ctx.stats.get('worst:angvec:angle-over-pi', 0.0), float(t) - PI)
+                if not (0 <= t <= PI * (1 + 2 * EPS)):
+                    ctx.fail(f'oracle:angvec:{site}:range', f"rotation angle {t!r} outside [0, pi]", rep)
+                if abs(t - th_true) > 1e-6 and not (PI - th_true < 1e-6):
+                    ctx.fail(f'oracle:angvec:{site}:angle', f"extracted angle {t!r} differs from the rotation angle {th_true!r}", rep)
                 n = float(np.linalg.norm(ax))
                 if not (abs(n - 1) <= 1e-9 or (n == 0 and t == 0)):
                     ctx.fail(f'oracle:angvec:{site}:axis', f"axis {ax} is neither unit nor (zero with zero angle); theta={t}", rep)
@@ -624,11 +620,7 @@ def oracle_planar(ctx):
                 ctx.fail(f'oracle:planar:{nm}:deg', f"{nm}('deg') = {d_} != radians*180/pi = {r_ * 180 / PI}", rep)
         if abs(a[2]) > 1e-9 and not abs(ad[2] - a[2] * 180 / PI) <= 1e-9 * 180:
             rep['out_rad'], rep['out_deg'] = a.tolist(), ad.tolist()
-            if ad[2] == a[2]:
-                ctx.fail('oracle:planar:tr2xyt:deg:unit-ignored',
-                         f"tr2xyt(T, unit='deg') returns theta = {ad[2]} (radians): the documented unit argument is ignored", rep)
-            else:
-                ctx.fail('oracle:planar:tr2xyt:deg', f"tr2xyt(T, unit='deg') theta {ad[2]} != {a[2] * 180 / PI}", rep)
+            ctx.fail('oracle:planar:tr2xyt:deg', f"tr2xyt(T, unit='deg') theta {ad[2]} != {a[2] * 180 / PI}", rep)
 
 
 def oracle_multi(ctx):
@@ -747,6 +739,7 @@ def run(ctx):
         ctx.fail('gen:compile', 'generated definitions do not compile: ' + err[-800:], no_input=True)
     else:
         ctx.prove('theories/Props/C05_a.v')       # constructors: axis orders, aliases, call forms, degrees
+        ctx.prove('theories/Props/C05_c.v')       # axis-angle: general path of tr2angvec is a right inverse of angvec2r
         ctx.prove('theories/Props/C05_b.v')       # extraction: right inverse, singular case, ranges, degrees (needs the thresholds)
         with ctx.timed('correspond'):
             sym_num(ctx, g, MOD, ctx.n(260, 1500))
